@@ -290,7 +290,7 @@ def gen_drv(tier, rng):
         fsel = FORMS if thorough and n % 3 == 0 else [FORMS[n % len(FORMS)]]
         for j, f1 in enumerate(fsel):
             f2 = FORMS[(n // len(FORMS) + j) % len(FORMS)]
-            if not thorough and n % 5 and p[2:] != q[2:]:
+            if not thorough and n % 7 and p[2:] != q[2:]:
                 continue
             cases.append(drv_case("fan" if n % 3 else "chain",
                                   [p + (f1, n % 7 == 0), q + (f2, n % 11 == 0)],
@@ -299,7 +299,7 @@ def gen_drv(tier, rng):
     for (lo1, hi1), (lo2, hi2) in itertools.product(RANGES, RANGES):
         for d1, d2 in itertools.product(DOMS, DOMS):
             for f1, f2 in itertools.product(FORMS, FORMS):
-                if not thorough and rng.random() < 0.94:
+                if not thorough and rng.random() < 0.955:
                     continue
                 cases.append(drv_case("fan", [(lo1, hi1, 0, d1, f1, False), (lo2, hi2, 0, d2, f2, False)], tag="same"))
     # (2) three placements
